@@ -52,7 +52,10 @@ PLAN = {
     "C18": {"level": "exploration", "units": [
         unit("k8s", "TestC18Grid", 1, 1, replay="TestReplayC18", rapid=False, workers={"quick": 1, "thorough": 1}),
         unit("k8s", "TestC18List", 500, 5000, seed_off=300),
-        unit("k8s", "TestC18Seq", 500, 5000, seed_off=600)]},
-    "C19": {"level": "exploration", "units": [unit("cyc", "TestC19", 1500, 15000, replay="TestReplayC19")]},
+        unit("k8s", "TestC18Seq", 500, 5000, seed_off=600),
+        unit("k8s", "TestC18Coord", 300, 4000, seed_off=900)]},
+    "C19": {"level": "exploration", "units": [
+        unit("cyc", "TestC19", 1500, 15000, replay="TestReplayC19"),
+        unit("k8s", "TestC19K8s", 300, 4000, replay="TestReplayC19K8s", seed_off=900)]},
     "C20": {"level": "exploration", "units": [unit("expl", "TestC20", 40, 600, replay="TestReplayC20", shrinktime="30s")]},
 }
